@@ -68,7 +68,8 @@ func (d *forkDirector) next(s *sim, rng *simcore.RNG) simcore.Op {
 		// wait for a fresh round shared by all correct nodes
 		var h int64 = -1
 		var r int32
-		for _, rs := range rss {
+		for _, i := range sortedKeys(rss) {
+			rs := rss[i]
 			if h == -1 {
 				h, r = rs.Height, rs.Round
 			}
@@ -101,7 +102,8 @@ func (d *forkDirector) next(s *sim, rng *simcore.RNG) simcore.Op {
 	case 1:
 		// every correct node gets the complete proposal of (h, r)
 		all := true
-		for i, rs := range rss {
+		for _, i := range sortedKeys(rss) {
+			rs := rss[i]
 			if rs.Height != d.h || rs.Round != d.r {
 				return d.giveUp(s)
 			}
@@ -115,7 +117,8 @@ func (d *forkDirector) next(s *sim, rng *simcore.RNG) simcore.Op {
 			}
 		}
 		if all {
-			for _, rs := range rss {
+			for _, i := range sortedKeys(rss) {
+				rs := rss[i]
 				d.x = bidStr(types.BlockID{Hash: rs.ProposalBlock.Hash(), PartSetHeader: rs.ProposalBlockParts.Header()})
 				break
 			}
@@ -137,7 +140,7 @@ func (d *forkDirector) next(s *sim, rng *simcore.RNG) simcore.Op {
 			}
 		}
 		// the proposer may not have proposed yet: let its timers run
-		for i := range rss {
+		for _, i := range sortedKeys(rss) {
 			if op := s.timeoutOp(s.nodes[i]); op != nil && rss[i].Step < cstypes.RoundStepPropose {
 				return op
 			}
@@ -169,7 +172,7 @@ func (d *forkDirector) next(s *sim, rng *simcore.RNG) simcore.Op {
 			}
 		}
 		done := true
-		for i := range d.slow {
+		for _, i := range keys(d.slow) {
 			rs := rss[i]
 			if rs.Step >= cstypes.RoundStepPrecommit {
 				continue
@@ -192,7 +195,7 @@ func (d *forkDirector) next(s *sim, rng *simcore.RNG) simcore.Op {
 				return op
 			}
 		}
-		for i := range d.fast {
+		for _, i := range keys(d.fast) {
 			if rss[i].Step < cstypes.RoundStepPrecommit {
 				done = false
 				if op := s.timeoutOp(s.nodes[i]); op != nil && rss[i].Step == cstypes.RoundStepPrevoteWait {
@@ -252,7 +255,8 @@ func (d *forkDirector) next(s *sim, rng *simcore.RNG) simcore.Op {
 			}
 		}
 		moved := true
-		for i, rs := range rss {
+		for _, i := range sortedKeys(rss) {
+			rs := rss[i]
 			if i == d.d || rs.Height != d.h || rs.Round > d.r {
 				continue
 			}
@@ -301,7 +305,8 @@ func (d *forkDirector) next(s *sim, rng *simcore.RNG) simcore.Op {
 			}
 			// vote for whatever other block is on the table in round r+1
 			var y string
-			for i, rs := range rss {
+			for _, i := range sortedKeys(rss) {
+				rs := rss[i]
 				if i != d.d && rs.Height == d.h && rs.Round == r1 && rs.Proposal != nil {
 					if id := bidStr(rs.Proposal.BlockID); id != d.x {
 						y = id
@@ -335,6 +340,15 @@ func (d *forkDirector) giveUp(s *sim) simcore.Op {
 }
 
 func keys(m map[int]bool) []int {
+	var out []int
+	for k := range m {
+		out = append(out, k)
+	}
+	sort.Ints(out)
+	return out
+}
+
+func sortedKeys(m map[int]*cstypes.RoundState) []int {
 	var out []int
 	for k := range m {
 		out = append(out, k)
